@@ -23,7 +23,7 @@ TEXT = {
  "C13": ("the full grid of modes x representation x sign x tie classes judged by an independent rounding model cross-checked against the standard decimal module", "rounding grid vs. two independent rounding oracles"),
  "C14": ("temperature pairs/triples and synthetic tables generated from a consistent affine model with rows removed", "affine reference model"),
  "C15": ("seeded declaration histories, one fresh process each, directory snapshot through public calls after every step compared with a directory model, scale and reference-unit probes", "quiescent-point directory walker vs. directory model"),
- "C16": ("for every base history an invalid step of 15 classes is inserted before every position; snapshots before and after each rejected step must be identical; converter lookups before/after rejected updates", "fault enumeration with before/after directory snapshots"),
+ "C16": ("for every base history an invalid step of 16 classes is inserted before every position; snapshots before and after each rejected step must be identical; converter lookups before/after rejected updates", "fault enumeration with before/after directory snapshots"),
  "C17": ("each world executed under five schedules in fresh processes; repeats, early-vs-final, direct-unit and pairwise cross-process comparison of exact reference values", "differential re-execution under different histories in fresh processes"),
  "C18": ("all predefined units x numeric inputs of every kind x both factories, str/format/re-parse, grammar-mutated malformed strings", "round-trip and exact-value oracle"),
  "C19": ("pairs constructed to be equal by the model in each hashable class; hash and set size observed whenever the library reports equality", "eq-implies-hash monitor over constructed equal pairs"),
